@@ -65,6 +65,7 @@ structure St where
   concPairs : Nat := 0
   compatBits : Nat := 0
   nonMono : Nat := 0
+  propagated : Nat := 0
   opHist : List (String × Nat) := []
   kindHist : List (String × Nat) := []
   widthHist : List (String × Nat) := []
@@ -342,7 +343,7 @@ def shapeClass (op : String) (a : List Arg) (p : List Nat) : String :=
     else "-"
   | _ =>
     if op == "shl" ∨ op == "shr" ∨ op == "rotl" ∨ op == "rotr" then
-      (if p0 > (v 0).length then "amount>width" else "amount<=width")
+      (if p0 > (v 0).length then "amount-gt-width" else "amount-le-width")
     else if op == "cat" ∨ op == "pack" then
       (if a.any (fun x => x.v.isEmpty) then "zero-width-operand" else "-")
     else if (v 0).isEmpty then "zero-width" else "-"
